@@ -321,11 +321,31 @@ def check(prog, res, tier):
 
     # ---- C20.a the command-line glue of the two CSV tools
     from .tools import cli_glue_ob
-    for mod, tool, ip, op_, im, om, opts in (('cli.mci_csv_to_ipm', 'mci_csv_to_ipm', 'in_csv', 'out_ipm', 'r', 'wb', ('out_encoding',)),
-                                            ('cli.mci_ipm_to_csv', 'mci_ipm_to_csv', 'in_ipm', 'out_csv', 'rb', 'w', ('in_encoding',))):
-        ob = cli_glue_ob(prog, res, 'C20.a', mod, tool, ip, op_, im, om, passthrough=opts)
+    csv_default = {}
+    for mod, tool, ip, op_, im, om, opts, tenc in (
+            ('cli.mci_csv_to_ipm', 'mci_csv_to_ipm', 'in_csv', 'out_ipm', 'r', 'wb', ('out_encoding',), ('input', 'in_encoding', csv_default)),
+            ('cli.mci_ipm_to_csv', 'mci_ipm_to_csv', 'in_ipm', 'out_csv', 'rb', 'w', ('in_encoding',), ('output', 'out_encoding', csv_default))):
+        ob = cli_glue_ob(prog, res, 'C20.a', mod, tool, ip, op_, im, om, passthrough=opts, text_encoding=tenc)
         if ob is not None:
             res.add(ob)
+    if len(csv_default) == 2:
+        # siblings: with no encoding option the csv is written by one tool with the encoding the other reads it with
+        obd = Ob('C20.a', 'without an encoding option, mci_ipm_to_csv writes the csv text with the encoding mci_csv_to_ipm reads it with',
+                 func_where(prog.func('cli.mci_ipm_to_csv.cli_run')), "open(..., 'w', encoding=kwargs.get('out_encoding')) / "
+                 "open(..., 'r', encoding=kwargs.get('in_encoding'))")
+        obd.rule = 'C20.a.cli.csv-default'
+        rd, wr = csv_default['cli.mci_csv_to_ipm'], csv_default['cli.mci_ipm_to_csv']
+        show = lambda s_: ', '.join(sorted('the locale default (None)' if k is None else repr(k) for k in s_))
+        if '?' in rd | wr:
+            obd.verdict, obd.detail = UNDECIDED, f'the default text encodings could not be evaluated (reads: {show(rd)}; writes: {show(wr)})'
+        elif rd == wr and len(rd) == 1:
+            obd.verdict, obd.detail = PROVED, f'both tools open the csv with {show(rd)} when the option is not given'
+        else:
+            obd.verdict = REFUTED
+            obd.detail = (f'with no encoding option mci_ipm_to_csv writes the csv with {show(wr)} but mci_csv_to_ipm reads a csv with {show(rd)}: '
+                          f'a cell with a character that the two encode differently does not come back')
+            obd.witness = {'csv written with': show(wr), 'csv read with': show(rd)}
+        res.add(obd)
 
     # ---- C20.b producible columns
     cfg = prog.config_literal()
